@@ -36,6 +36,7 @@ void set_clock(int64_t t);
 
 extern bool select_zero_timeout;       // interposed select(): forward with zero time-out
 extern unsigned long kdf_iter_clamp;   // 0 = do not clamp
+extern bool hash_cache;                // memoise gcry_md_hash_buffer (pure function) for replay-heavy drivers
 
 uint64_t env_seed();                   // VERIF_SEED (default 1)
 uint64_t splitmix(uint64_t &x);
